@@ -237,7 +237,7 @@ def strategy():
             "sub": st.sampled_from([0, 0, 0, 0, 0, 1, 2, 3]),
         }
     )
-    rtext = st.one_of(st.text(alphabet="ab'\"\\\n\té中 x", min_size=0, max_size=5), st.text(alphabet="ab'\"\\\n\té中 x+(),=*", min_size=0, max_size=8),
+    rtext = st.one_of(st.text(alphabet="ab{}%", min_size=0, max_size=5), st.text(alphabet="ab'\"\\\n\té中 x", min_size=0, max_size=5), st.text(alphabet="ab'\"\\\n\té中 x+(),=*", min_size=0, max_size=8),
                       st.text(alphabet="+'\"a()", min_size=0, max_size=8),
                       st.text(alphabet=" \t\n\xa0", min_size=0, max_size=40), st.text(alphabet="ab' \\\n", min_size=12, max_size=120))
     rdesc = st.lists(st.tuples(rtext, gen.atts()).map(list), min_size=1, max_size=4)
